@@ -361,11 +361,35 @@ macro_rules! invert_composed {
             let qs: Vec<Quaternion<F>> = (0..n).map(|j| Rotation3::from_axis_angle(ax(j), Rad(angs[j % 4]))).collect();
             let bs: Vec<Basis3<F>> = (0..n).map(|j| Rotation3::from_axis_angle(ax(j), Rad(angs[j % 4]))).collect();
             let b2s: Vec<Basis2<F>> = (0..n).map(|j| Rotation2::from_angle(Rad(angs[j % 4]))).collect();
-            let (q, b, b2): (Quaternion<F>, Basis3<F>, Basis2<F>) = if d.bool() {
-                (qs.iter().product(), bs.iter().product(), b2s.iter().product())
-            } else {
-                (qs.iter().fold(Quaternion::one(), |a, x| a * *x), bs.iter().fold(Basis3::one(), |a, x| a * *x), b2s.iter().fold(Basis2::one(), |a, x| a * *x))
+            let folded: (Quaternion<F>, Basis3<F>, Basis2<F>) =
+                (qs.iter().fold(Quaternion::one(), |a, x| a * *x), bs.iter().fold(Basis3::one(), |a, x| a * *x), b2s.iter().fold(Basis2::one(), |a, x| a * *x));
+            // n-ary composition as the Rotation trait requires it (iter::Product over values, and over references), fed from
+            // sized, unsized (size_hint lower bound 0) and generator iterators: each is the composition the fold spells out
+            let spelling = d.int(0, 5);
+            let (q, b, b2): (Quaternion<F>, Basis3<F>, Basis2<F>) = match spelling {
+                0 => folded,
+                1 => (qs.iter().product(), bs.iter().product(), b2s.iter().product()),
+                2 => (qs.iter().cloned().product(), bs.iter().cloned().product(), b2s.iter().cloned().product()),
+                3 => (qs.iter().filter(|_| true).product(), bs.iter().filter(|_| true).product(), b2s.iter().filter(|_| true).product()),
+                4 => (qs.iter().cloned().filter(|_| true).product(), bs.iter().cloned().filter(|_| true).product(), b2s.iter().cloned().filter(|_| true).product()),
+                _ => {
+                    let (mut i, mut j, mut k) = (0usize, 0usize, 0usize);
+                    (std::iter::from_fn(|| { i += 1; qs.get(i - 1).cloned() }).product(),
+                     std::iter::from_fn(|| { j += 1; bs.get(j - 1).cloned() }).product(),
+                     std::iter::from_fn(|| { k += 1; b2s.get(k - 1).cloned() }).product())
+                }
             };
+            {
+                let ptol = (n as F + 8.0) * 8.0 * F::EPSILON;
+                let e = (q.s - folded.0.s).abs().max((q.v.x - folded.0.v.x).abs()).max((q.v.y - folded.0.v.y).abs()).max((q.v.z - folded.0.v.z).abs());
+                ensure!(e <= ptol, "quaternion-product-is-composition", "Product spelling {} of {} quaternion rotations differs from their left-to-right composition by {:e}", spelling, n, e);
+                let (m, mf): (Matrix3<F>, Matrix3<F>) = (b.into(), folded.1.into());
+                let e = m.rm().max_abs_diff(&mf.rm());
+                ensure!(e <= ptol, "basis3-product-is-composition", "Product spelling {} of {} Basis3 rotations differs from their left-to-right composition by {:e}", spelling, n, e);
+                let (m, mf): (Matrix2<F>, Matrix2<F>) = (b2.into(), folded.2.into());
+                let e = m.rm().max_abs_diff(&mf.rm());
+                ensure!(e <= ptol, "basis2-product-is-composition", "Product spelling {} of {} Basis2 rotations differs from their left-to-right composition by {:e}", spelling, n, e);
+            }
             let tol = 64.0 * F::EPSILON;
             let vl = v.x.abs() + v.y.abs() + v.z.abs();
             // quaternion
